@@ -232,6 +232,9 @@ def parse_answer(line):
         garbage = f[-1] == "GARBAGE"
         if garbage:
             f = f[:-1]
+        hp = f[-1][1:]
+        f = f[:-1]
+        heap_after = ([_p_list(x) for x in hp.split(";")] if hp != "" else [])
         if f[0] == "R":
             states = [_p_state(x) for x in f[1].split("&")] if f[1] else []
             probs = [_p_prob(x) for x in f[2].split("&")] if f[2] else []
@@ -254,6 +257,7 @@ def parse_answer(line):
         else:
             raise ValueError("chunk " + p)
         chunks[-1]["garbage"] = garbage
+        chunks[-1]["heap"] = heap_after
     wf = dict(x.split("=", 1) for x in parts[-1].split("!")[1:])
     heap = [_p_list(x) for x in wf["heap"].split(";")] if wf["heap"] != "" else []
     sim = None
@@ -314,10 +318,11 @@ class Instrument:
     """Logs which operations the real simulator executes and scripts np.random.choice.
     Nothing in /repo is modified: methods of the imported class are wrapped in-process and restored."""
 
-    def __init__(self, rng):
+    def __init__(self, rng, track=None):
         self.rng = rng
         self.events = []
         self.picks = []
+        self.track = track       # only this simulator object is logged (None = all)
 
     def __enter__(self):
         from qutip_qip.circuit import circuitsimulator as cs
@@ -328,15 +333,19 @@ class Instrument:
 
         def w_einsum(self_, gate, state):
             r = inst.saved[0](self_, gate, state)      # exceptions propagate: no event, as in the model
-            inst.events.append("f%d" % (self_._op_index - 1))
+            if inst.track is None or self_ is inst.track:
+                inst.events.append("f%d" % (self_._op_index - 1))
             return r
 
         def w_evolve(self_, op, state):
             r = inst.saved[1](self_, op, state)
-            inst.events.append("f%d" % (self_._op_index - 1))
+            if inst.track is None or self_ is inst.track:
+                inst.events.append("f%d" % (self_._op_index - 1))
             return r
 
         def w_meas(self_, op, state):
+            if not (inst.track is None or self_ is inst.track):
+                return inst.saved[2](self_, op, state)
             idx = self_._op_index - 1
             npk = len(inst.picks)
             mi = self_._measure_ind
@@ -350,6 +359,8 @@ class Instrument:
             return r
 
         def w_step(self_):
+            if not (inst.track is None or self_ is inst.track):
+                return inst.saved[3](self_)
             idx = getattr(self_, "_op_index", None)
             n0 = len(inst.events)
             r = inst.saved[3](self_)
@@ -419,7 +430,7 @@ class RefMap:
         return self.fresh[r]
 
 
-def run_impl(case, rng, qc=None):
+def run_impl(case, rng, qc=None, observer=None, handlers=None):
     """Run the case's calls on one shared CircuitSimulator.  Returns (chunks, world, picks) in a form
     comparable with the model's answer, or ("err", kind) if the circuit cannot be built."""
     from qutip_qip.circuit import CircuitSimulator
@@ -435,10 +446,15 @@ def run_impl(case, rng, qc=None):
     am = AliasMap(lists)
     chunks = []
     seen_lists = {}
-    with Instrument(rng) as inst:
-        for c in case["calls"]:
+    objs = {"lists": lists, "sim": sim, "qc": qc, "inits": inits}
+    with Instrument(rng, track=sim) as inst:
+        for j, c in enumerate(case["calls"]):
+            if observer:
+                observer(j, c, "before", objs, None)
             try:
-                if c[0] in ("run", "stat"):
+                if handlers and c[0] in handlers:
+                    chunks.append(handlers[c[0]](objs, c))
+                elif c[0] in ("run", "stat"):
                     cb = None if c[2] is None else lists[c[2]]
                     if c[0] == "run":
                         mr = None if c[3] is None else tuple(c[3])
@@ -469,6 +485,9 @@ def run_impl(case, rng, qc=None):
                     raise ValueError("call " + str(c))
             except Exception as e:
                 chunks.append({"kind": "E", "err": err_name(e), "events": inst.take(), "exc": repr(e)[:200]})
+            chunks[-1]["heap"] = [[int(v) for v in l] for l in lists]
+            if observer:
+                observer(j, c, "after", objs, chunks[-1])
         picks = list(inst.picks)
     simw = None
     if hasattr(sim, "_op_index"):
@@ -487,7 +506,7 @@ def run_impl(case, rng, qc=None):
                 "mres": None if mr is None else [int(x) for x in mr], "mind": sim._measure_ind}
     world = {"heap": [[int(v) for v in l] for l in lists], "sim": simw,
              "result_lists": {k: [int(v) for v in l] for k, l in seen_lists.items()}}
-    return ("ok", chunks, world, picks, {"lists": lists, "sim": sim, "qc": qc, "inits": inits})
+    return ("ok", chunks, world, picks, objs)
 
 
 def _state_eq(model_st, impl_np, mode, tol=1e-9):
@@ -525,6 +544,8 @@ def compare(case, model, impl):
             # matrix-shaped array): outside the modelled domain from here on; the case is tagged
             case["_garbage"] = True
             return None
+        if m["heap"] != i["heap"]:
+            return f"call {j}: caller's lists after the call model={m['heap']} impl={i['heap']}"
         if m["kind"] != i["kind"]:
             return f"call {j}: kind model={m['kind']}{m.get('err', '')} impl={i['kind']}{i.get('err', '')} {i.get('exc', '')}"
         if m["kind"] == "E" and m["err"] != i["err"]:
